@@ -36,6 +36,12 @@ ASSUMPTIONS = [
     'C02_source_finalize_call) whenever that is not an exception; no cell of an output row is an exception value (C04); '
     'having_index lies inside the target list; StopIteration of next() is modelled as the IndexError of pop(0) (never '
     'raised: every key has one cell per grouped target, proved for the store the scan builds)',
+    'C02_source_sum_over_inventories (group `agginv`, src_agginv.py -> coq/Gen/SrcAggInv.v, shared with C12): '
+    '`store[self.handle].add_amount/add_position/add_inventory(value)` is read the slot - update - write back (rule A10: the '
+    'accumulator Inventory is reachable only through its store slot; value semantics cannot see aliasing, the shape of the '
+    'source term and the correspondence of C12 do); the Inventory methods are Model/Inventory.v\'s on encoded values '
+    '(Model/PrimsAggInv.v), dtype() returns a fresh empty inventory (recorded from live instances), the operand is an '
+    'opaque pure callable',
 ]
 IMPORTS = ['Base.PyValue', 'Base.Decimal', 'Model.Eval', 'Model.Order', 'Model.Exec', 'Model.Subquery']
 EXTRA_TARGETS = ['Model/Subquery.vo']      # items_of: the value list of an IN (SELECT ...) in the WHERE clause of the gen_in_case stream
@@ -570,6 +576,11 @@ def generate():
     out['src_agg_classes'] = list(src_agg.AggGroup.info.get('classes', []))
     out['src_agg_left_out'] = list(src_agg.AggGroup.info.get('left_out', []))
     out['src_agg_desugaring_rules_used'] = list(src_agg.AggGroup.info.get('rules_used', []))
+    # the classes src_agg leaves out (sum over Amount / Position / Inventory): group `agginv`, owned by C12
+    # (C02_source_sum_over_inventories); last, so that a failure there does not keep Gen/SrcAgg.v stale
+    from . import src_agginv
+    out.update(gen_src.generate('agginv'))
+    out.update(src_agginv.report())
     return out
 
 
